@@ -138,6 +138,10 @@ class SsbGraphMinimizer:
                 old_in_edge = g.es[in_edge_id]
                 attr = old_in_edge.attributes()
                 iv = old_in_edge.source
+                # Ops that name the removed label (calls are written with their label) now mean the new one.
+                iv_op = old_in_edge.source_vertex["op"]
+                if isinstance(iv_op, SsbLabelJump) and iv_op.label is label["op"]:
+                    iv_op.label = ov["op"]
                 # Create a new edge between the target label and the old entry point
                 g.add_edge(iv, ov, **attr)
             g.delete_edges(ins)
